@@ -108,17 +108,14 @@ Definition conf_payload (s1 s2 s3:list Z) : list Z :=
   end.
 
 (* the three strings the library holds (InstallationDescription1, InstallationDescription2, ManufacturerInformation) *)
-Definition conf_strings (r:rnode) : list Z * list Z * list Z :=
-  let p := c_confinfo (r_cfg r) in
-  let '(s1, i1) := get_varstr p 0 in
-  let '(s2, i2) := get_varstr p i1 in
-  let '(s3, _) := get_varstr p i2 in
-  (s1, s2, s3).
-Definition set_conf_strings (r:rnode) (s1 s2 s3:list Z) : rnode :=
+Definition conf_strings (r:rnode) : list Z * list Z * list Z := (c_inst1 (r_cfg r), c_inst2 (r_cfg r), c_manuf (r_cfg r)).
+(* SetInstallationDescription1/2: the strings, the payload of the next PGN 126998 and InstallationDescriptionChanged *)
+Definition set_conf_strings (r:rnode) (s1 s2:list Z) : rnode :=
   let c := r_cfg r in
   {| rn := rn r; rx_dev := rx_dev r; r_slots := r_slots r; r_q := r_q r;
      r_cfg := {| c_only_known := c_only_known c; c_iso_handler := c_iso_handler c; c_prodinfo := c_prodinfo c;
-                 c_confinfo := conf_payload s1 s2 s3; c_hb_on := c_hb_on c |};
+                 c_confinfo := conf_payload s1 s2 (c_manuf c); c_hb_on := c_hb_on c;
+                 c_inst1 := s1; c_inst2 := s2; c_manuf := c_manuf c; c_inst_changed := true |};
      r_open_sched := r_open_sched r; r_sync := r_sync r; r_devinfo_changed := r_devinfo_changed r; r_oob := r_oob r; r_clk := r_clk r |}.
 
 (* ---------- the acknowledge group function ---------- *)
@@ -134,10 +131,6 @@ Definition gf_msg (dst:Z) (d:list Z) : msg := {| m_pri := 3; m_pgn := 126208; m_
 Definition send_ack (r:rnode) (i dst:Z) (d:list Z) : rnode * list event :=
   let r := if dlen d >? c_MaxDataLen then set_oob r else r in
   let '(r1, ev, _) := rsend r (gf_msg dst d) i in (r1, ev).
-(* SendAcknowledge(pNMEA2000, Destination, iDev, PGN, PGNec, TPec, NumberOfParameterPairs, ParameterErrorCodeForAll) *)
-Definition send_acknowledge (r:rnode) (i dst pgn pgnec tpec n pec:Z) : rnode * list event :=
-  send_ack r i dst (ack_all (Z.to_nat n) (ack_start pgn pgnec tpec n) 0 pec).
-
 (* GetRequestGroupFunctionTransmissionOrPriorityErrorCode: 0 = acknowledge, 1 = interval/priority not supported *)
 Definition tp_code (interval offset:Z) (lim:option (Z * Z * Z)) : Z :=
   let iok := (interval =? 4294967295) || (interval =? 4294967294) || (interval =? 0)
@@ -145,9 +138,6 @@ Definition tp_code (interval offset:Z) (lim:option (Z * Z * Z)) : Z :=
   let ook := (offset =? 65535) || (offset =? 0) || match lim with Some (_, _, omax) => offset <=? omax | None => false end in
   if iok && ook then 0 else 1.
 Definition prio_code (prio:Z) : Z := if (prio =? 8) || (prio =? 15) || (prio =? 9) then 0 else 1.
-
-(* IsTxPGN *)
-Definition is_tx_pgn (r:rnode) (i pgn:Z) : bool := existsb (Z.eqb pgn) def_transmit_messages || existsb (Z.eqb pgn) (d_tx (get_dev (rn r) i)).
 
 (* ---------- things the handlers make the node do ---------- *)
 (* SendIsoAddressClaim(0xff, iDev, 2): delayed *)
@@ -195,7 +185,13 @@ Definition set_instances (r:rnode) (i lower upper si:Z) : rnode :=
 (* MatchRequestField for numbers: (error code, Match) *)
 Definition mnum (v mask cur:Z) (mt:bool) : Z * bool := if Z.land v mask =? cur then (0, mt) else (3, false).
 (* for strings *)
-Definition mstr (q cur:list Z) (mt:bool) : Z * bool := if list_eq_dec Z.eq_dec q cur then (0, mt) else (3, false).
+Fixpoint leqb (a b:list Z) : bool :=
+  match a, b with
+  | [], [] => true
+  | x :: a', y :: b' => (x =? y) && leqb a' b'
+  | _, _ => false
+  end.
+Definition mstr (q cur:list Z) (mt:bool) : Z * bool := if leqb q cur then (0, mt) else (3, false).
 
 (* one iteration's field decoding: payload, Index, Match -> (parameter error code, Index, Match, invalid field found) *)
 Definition fstep := list Z -> Z -> bool -> Z * Z * bool * bool.
@@ -262,55 +258,69 @@ Fixpoint req_loop (fs:fstep) (k:nat) (d:list Z) (bcast:bool) (i idx:Z) (mt inv:b
 Record gmsg := { g_src : Z; g_dst : Z; g_tp : bool; g_d : list Z }.
 Definition g_bcast (g:gmsg) : bool := g_dst g =? 255.
 
-(* common frame of the four filtering request handlers: [deliver] sends the requested PGN *)
-Definition req_filtered (r:rnode) (g:gmsg) (i pgn interval offset np:Z) (fs:fstep)
-                        (deliver:rnode -> Z -> rnode * list event) : rnode * list event :=
-  let pec := tp_code interval offset None in
-  let '(ack, mt, sel) := req_loop fs (Z.to_nat np) (g_d g) (g_bcast g) 0 11 true false (ack_start pgn 0 pec np) 255 in
-  if mt && (pec =? 0) then deliver r sel
-  else if g_bcast g then (r, []) else send_ack r i (g_src g) ack.
+(* what the handlers read of the node: the addressed device's NAME and transmit list, product and configuration information *)
+Record gf_env := { e_name : Z; e_tx : list Z; e_prod : list Z; e_s1 : list Z; e_s2 : list Z; e_s3 : list Z }.
+Definition env_of (r:rnode) (i:Z) : gf_env :=
+  {| e_name := d_name (get_dev (rn r) i); e_tx := d_tx (get_dev (rn r) i); e_prod := c_prodinfo (r_cfg r);
+     e_s1 := c_inst1 (r_cfg r); e_s2 := c_inst2 (r_cfg r); e_s3 := c_manuf (r_cfg r) |}.
+
+(* what one handler invocation makes the node do *)
+Inductive gf_action : Type :=
+| GaNone
+| GaAck (dst:Z) (ack:list Z)                                  (* SendMsg(Acknowledge) *)
+| GaClaim                                                     (* SendIsoAddressClaim(0xff, iDev, 2): the address claim, 2 ms later *)
+| GaLists (dst:Z) (tp:bool) (sel:Z)                           (* SendTxPGNList / SendRxPGNList; sel = 0 transmit, 1 receive, 255 both *)
+| GaProd (dst:Z) (tp:bool)                                    (* SendProductInformation *)
+| GaConf (dst:Z) (tp:bool)                                    (* SendConfigurationInformation *)
+| GaHeartbeat (interval offset_ms:Z)                          (* SetHeartbeatIntervalAndOffset + SendHeartbeat(iDev) *)
+| GaCmdInst (dst:Z) (ack:list Z) (lower upper sys:Z)          (* SendMsg(Acknowledge); SetDeviceInformationInstances *)
+| GaCmdDesc (dst:Z) (ack:list Z) (s1 s2:list Z) (chg:bool).   (* SetInstallationDescription1/2 ...; SendMsg(Acknowledge) *)
 
 (* destination of a requested PGN: the requester, or the global address when the request came as a broadcast ISO-TP message *)
 Definition reply_dst (g:gmsg) : Z := if g_tp g && g_bcast g then g_dst g else g_src g.
 
-Definition req_60928 (r:rnode) (g:gmsg) (i interval offset np:Z) : rnode * list event :=
-  req_filtered r g i 60928 interval offset np (fstep_60928 (d_name (get_dev (rn r) i))) (fun r _ => (pend_claim r i, [])).
-Definition req_126464 (r:rnode) (g:gmsg) (i interval offset np:Z) : rnode * list event :=
-  req_filtered r g i 126464 interval offset np fstep_126464
-    (fun r sel =>
-       let '(r1, ev1) := if (sel =? 0) || (sel =? 255) then send_tx_list r i (reply_dst g) (g_tp g) else (r, []) in
-       let '(r2, ev2) := if (sel =? 1) || (sel =? 255) then send_rx_list r1 i (reply_dst g) (g_tp g) else (r1, []) in
-       (r2, ev1 ++ ev2)).
-Definition req_126996 (r:rnode) (g:gmsg) (i interval offset np:Z) : rnode * list event :=
-  req_filtered r g i 126996 interval offset np (fstep_126996 (c_prodinfo (r_cfg r))) (fun r _ => send_product_info_to r i (reply_dst g) (g_tp g)).
-Definition req_126998 (r:rnode) (g:gmsg) (i interval offset np:Z) : rnode * list event :=
-  let '(s1, s2, s3) := conf_strings r in
-  req_filtered r g i 126998 interval offset np (fstep_126998 s1 s2 s3) (fun r _ => send_config_info_to r i (reply_dst g) (g_tp g)).
+(* common frame of the four filtering request handlers: [deliver] is the action that sends the requested PGN *)
+Definition req_filtered (g:gmsg) (pgn interval offset np:Z) (fs:fstep) (deliver:Z -> gf_action) : gf_action :=
+  let pec := tp_code interval offset None in
+  let '(ack, mt, sel) := req_loop fs (Z.to_nat np) (g_d g) (g_bcast g) 0 11 true false (ack_start pgn 0 pec np) 255 in
+  if mt && (pec =? 0) then deliver sel
+  else if g_bcast g then GaNone else GaAck (g_src g) ack.
+
+Definition req_60928 (e:gf_env) (g:gmsg) (interval offset np:Z) : gf_action :=
+  req_filtered g 60928 interval offset np (fstep_60928 (e_name e)) (fun _ => GaClaim).
+Definition req_126464 (g:gmsg) (interval offset np:Z) : gf_action :=
+  req_filtered g 126464 interval offset np fstep_126464 (fun sel => GaLists (reply_dst g) (g_tp g) sel).
+Definition req_126996 (e:gf_env) (g:gmsg) (interval offset np:Z) : gf_action :=
+  req_filtered g 126996 interval offset np (fstep_126996 (e_prod e)) (fun _ => GaProd (reply_dst g) (g_tp g)).
+Definition req_126998 (e:gf_env) (g:gmsg) (interval offset np:Z) : gf_action :=
+  req_filtered g 126998 interval offset np (fstep_126998 (e_s1 e) (e_s2 e) (e_s3 e)) (fun _ => GaConf (reply_dst g) (g_tp g)).
+
+(* IsTxPGN *)
+Definition is_tx (e:gf_env) (pgn:Z) : bool := existsb (Z.eqb pgn) def_transmit_messages || existsb (Z.eqb pgn) (e_tx e).
+(* SendAcknowledge(.., PGN, PGNec, TPec, NumberOfParameterPairs, ParameterErrorCodeForAll) *)
+Definition ack_uniform (pgn pgnec tpec n pec:Z) : list Z := ack_all (Z.to_nat n) (ack_start pgn pgnec tpec n) 0 pec.
 
 (* tN2kGroupFunctionHandler::HandleRequest (default) *)
-Definition req_default (r:rnode) (g:gmsg) (i pgn interval offset np:Z) : rnode * list event :=
+Definition req_default (e:gf_env) (g:gmsg) (pgn interval offset np:Z) : gf_action :=
   let tor := tp_code interval offset None in
-  let '(pgnec, tor') := if is_tx_pgn r i pgn then (if tor =? 1 then (0, 1) else (2, 0)) else (1, 0) in
-  if g_bcast g then (r, []) else send_acknowledge r i (g_src g) pgn pgnec tor' np 0.
+  let '(pgnec, tor') := if is_tx e pgn then (if tor =? 1 then (0, 1) else (2, 0)) else (1, 0) in
+  if g_bcast g then GaNone else GaAck (g_src g) (ack_uniform pgn pgnec tor' np 0).
 
 (* heartbeat *)
-Definition req_126993 (r:rnode) (g:gmsg) (i interval offset np:Z) : rnode * list event :=
+Definition req_126993 (e:gf_env) (g:gmsg) (interval offset np:Z) : gf_action :=
   let pec0 := tp_code interval offset (Some (60000, 1000, 6000)) in
   let pec := if interval =? 0 then 1 else pec0 in
   if np =? 0 then
-    if (interval =? 4294967295) && (offset =? 65535) then req_default r g i 126993 interval offset np
-    else if pec =? 0 then
-      let off := if (offset =? 65535) || (offset =? 0) then 4294967295 else offset * 10 in
-      let r1 := if (interval =? 4294967295) && (off =? 65535) then r else set_heartbeat_all 1 r i interval off in
-      send_heartbeat_forced r1 i
-    else if g_bcast g then (r, []) else send_acknowledge r i (g_src g) 126993 0 pec 0 0
-  else if g_bcast g then (r, []) else send_acknowledge r i (g_src g) 126993 0 pec np 5.
+    if (interval =? 4294967295) && (offset =? 65535) then req_default e g 126993 interval offset np
+    else if pec =? 0 then GaHeartbeat interval (if (offset =? 65535) || (offset =? 0) then 4294967295 else offset * 10)
+    else if g_bcast g then GaNone else GaAck (g_src g) (ack_uniform 126993 0 pec 0 0)
+  else if g_bcast g then GaNone else GaAck (g_src g) (ack_uniform 126993 0 pec np 5).
 
 (* ---------- command handlers ---------- *)
-Definition cmd_default (r:rnode) (g:gmsg) (i pgn prio np:Z) : rnode * list event :=
-  send_acknowledge r i (g_src g) pgn (if is_tx_pgn r i pgn then 0 else 1) (prio_code prio) np 0.
-Definition cmd_126993 (r:rnode) (g:gmsg) (i pgn prio np:Z) : rnode * list event :=
-  send_acknowledge r i (g_src g) pgn 1 (prio_code prio) np 0.
+Definition cmd_default (e:gf_env) (g:gmsg) (pgn prio np:Z) : gf_action :=
+  GaAck (g_src g) (ack_uniform pgn (if is_tx e pgn then 0 else 1) (prio_code prio) np 0).
+Definition cmd_126993 (g:gmsg) (pgn prio np:Z) : gf_action :=
+  GaAck (g_src g) (ack_uniform pgn 1 (prio_code prio) np 0).
 
 (* PGN 60928: (acknowledge, lower, upper, system instance) *)
 Fixpoint cmd_60928_loop (k:nat) (d:list Z) (i idx:Z) (ack:list Z) (lo up si:Z) : list Z * Z * Z * Z :=
@@ -323,11 +333,10 @@ Fixpoint cmd_60928_loop (k:nat) (d:list Z) (i idx:Z) (ack:list Z) (lo up si:Z) :
     else if f =? 8 then let '(v, i2) := get_byte d i1 in cmd_60928_loop k' d (i + 1) i2 (ack_add ack i 0) lo up (v mod 16)
     else cmd_60928_loop k' d (i + 1) i1 (ack_add ack i 1) lo up si
   end.
-Definition cmd_60928 (r:rnode) (g:gmsg) (i prio np:Z) : rnode * list event :=
+Definition cmd_60928 (g:gmsg) (prio np:Z) : gf_action :=
   let pec := if prio =? 8 then 0 else 1 in
   let '(ack, lo, up, si) := cmd_60928_loop (Z.to_nat np) (g_d g) 0 6 (ack_start 60928 0 pec np) 255 255 255 in
-  let '(r1, ev) := send_ack r i (g_src g) ack in
-  (set_instances r1 i lo up si, ev).
+  GaCmdInst (g_src g) ack lo up si.
 
 (* PGN 126998: (acknowledge, description 1, description 2, anything set) *)
 Fixpoint cmd_126998_loop (k:nat) (d:list Z) (i idx:Z) (ack:list Z) (s1 s2:list Z) (chg:bool) : list Z * list Z * list Z * bool :=
@@ -339,69 +348,88 @@ Fixpoint cmd_126998_loop (k:nat) (d:list Z) (i idx:Z) (ack:list Z) (s1 s2:list Z
     else if f =? 2 then let '(q, i2) := get_varstr d i1 in cmd_126998_loop k' d (i + 1) i2 (ack_add ack i 0) s1 q true
     else cmd_126998_loop k' d (i + 1) i1 (ack_add ack i 1) s1 s2 chg
   end.
-Definition cmd_126998 (r:rnode) (g:gmsg) (i prio np:Z) : rnode * list event :=
-  let '(s1, s2, s3) := conf_strings r in
-  let '(ack, s1', s2', chg) := cmd_126998_loop (Z.to_nat np) (g_d g) 0 6 (ack_start 126998 0 (prio_code prio) np) s1 s2 false in
-  let r1 := if chg then set_conf_strings r s1' s2' s3 else r in
-  send_ack r1 i (g_src g) ack.
+Definition cmd_126998 (e:gf_env) (g:gmsg) (prio np:Z) : gf_action :=
+  let '(ack, s1', s2', chg) := cmd_126998_loop (Z.to_nat np) (g_d g) 0 6 (ack_start 126998 0 (prio_code prio) np) (e_s1 e) (e_s2 e) false in
+  GaCmdDesc (g_src g) ack s1' s2' chg.
 
 (* HandleReadFields / HandleWriteFields (default, no handler overrides them) *)
-Definition rw_default (r:rnode) (g:gmsg) (i pgn np:Z) : rnode * list event :=
-  send_acknowledge r i (g_src g) pgn (if is_tx_pgn r i pgn then 6 else 1) 0 np 0.
+Definition rw_default (e:gf_env) (g:gmsg) (pgn np:Z) : gf_action :=
+  GaAck (g_src g) (ack_uniform pgn (if is_tx e pgn then 6 else 1) 0 np 0).
 
-(* ---------- tN2kGroupFunctionHandler::Handle behind RespondGroupFunction ---------- *)
+(* ---------- tN2kGroupFunctionHandler::Handle behind RespondGroupFunction: the decision ---------- *)
 Definition has_handler (pgn:Z) : bool := (pgn =? 60928) || (pgn =? 126464) || (pgn =? 126993) || (pgn =? 126996) || (pgn =? 126998).
 
-Definition respond_gf (r:rnode) (g:gmsg) (fc pgn i:Z) : rnode * list event :=
-  let r := chk_dev r i in
+Definition decide_fc (e:gf_env) (g:gmsg) (fc pgn:Z) : gf_action :=
   let d := g_d g in
   if fc =? 0 then
     let '(interval, i1) := get_u32 d 4 in
     let '(offset, i2) := get_u16 d i1 in
     let '(np, _) := get_byte d i2 in
-    if pgn =? 60928 then req_60928 r g i interval offset np
-    else if pgn =? 126464 then req_126464 r g i interval offset np
-    else if pgn =? 126993 then req_126993 r g i interval offset np
-    else if pgn =? 126996 then req_126996 r g i interval offset np
-    else if pgn =? 126998 then req_126998 r g i interval offset np
-    else req_default r g i pgn interval offset np
+    if pgn =? 60928 then req_60928 e g interval offset np
+    else if pgn =? 126464 then req_126464 g interval offset np
+    else if pgn =? 126993 then req_126993 e g interval offset np
+    else if pgn =? 126996 then req_126996 e g interval offset np
+    else if pgn =? 126998 then req_126998 e g interval offset np
+    else req_default e g pgn interval offset np
   else if fc =? 1 then
-    if g_bcast g then (r, []) else
+    if g_bcast g then GaNone else
     let '(b, i1) := get_byte d 4 in
     let prio := b mod 16 in
     let '(np, _) := get_byte d i1 in
-    if pgn =? 60928 then cmd_60928 r g i prio np
-    else if pgn =? 126993 then cmd_126993 r g i pgn prio np
-    else if pgn =? 126998 then cmd_126998 r g i prio np
-    else cmd_default r g i pgn prio np
+    if pgn =? 60928 then cmd_60928 g prio np
+    else if pgn =? 126993 then cmd_126993 g pgn prio np
+    else if pgn =? 126998 then cmd_126998 e g prio np
+    else cmd_default e g pgn prio np
   else if (fc =? 3) || (fc =? 5) then
-    if g_bcast g then (r, []) else
+    if g_bcast g then GaNone else
     let propr := if has_handler pgn then false else is_proprietary pgn in
     let i1 := if propr then snd (get_u16 d 4) else 4 in
     let '(_, i2) := get_byte d i1 in           (* UniqueID *)
     let '(_, i3) := get_byte d i2 in           (* NumberOfSelectionPairs *)
     let '(np, _) := get_byte d i3 in
-    rw_default r g i pgn np
-  else (r, []).                                (* Acknowledge, Read reply, Write reply *)
+    rw_default e g pgn np
+  else GaNone.                                 (* Acknowledge, Read reply, Write reply *)
 
-Fixpoint respond_gf_all (k:nat) (r:rnode) (g:gmsg) (fc pgn i:Z) : rnode * list event :=
+(* Parse + dispatch: function codes above 6 and empty messages (0xff) are not group functions we know *)
+Definition gf_decide (e:gf_env) (g:gmsg) : gf_action :=
+  let fc := fst (get_byte (g_d g) 0) in
+  if fc >? 6 then GaNone else decide_fc e g fc (fst (get_u24 (g_d g) 1)).
+
+(* ---------- the execution of an action on the node ---------- *)
+Definition gf_exec (r:rnode) (i:Z) (a:gf_action) : rnode * list event :=
+  match a with
+  | GaNone => (r, [])
+  | GaAck dst ack => send_ack r i dst ack
+  | GaClaim => (pend_claim r i, [])
+  | GaLists dst tp sel =>
+    let '(r1, ev1) := if (sel =? 0) || (sel =? 255) then send_tx_list r i dst tp else (r, []) in
+    let '(r2, ev2) := if (sel =? 1) || (sel =? 255) then send_rx_list r1 i dst tp else (r1, []) in
+    (r2, ev1 ++ ev2)
+  | GaProd dst tp => send_product_info_to r i dst tp
+  | GaConf dst tp => send_config_info_to r i dst tp
+  | GaHeartbeat interval off =>
+    let r1 := if (interval =? 4294967295) && (off =? 65535) then r else set_heartbeat_all 1 r i interval off in
+    send_heartbeat_forced r1 i
+  | GaCmdInst dst ack lo up si => let '(r1, ev) := send_ack r i dst ack in (set_instances r1 i lo up si, ev)
+  | GaCmdDesc dst ack s1 s2 chg => send_ack (if chg then set_conf_strings r s1 s2 else r) i dst ack
+  end.
+
+Definition respond_gf (r:rnode) (g:gmsg) (i:Z) : rnode * list event :=
+  let r := chk_dev r i in gf_exec r i (gf_decide (env_of r i) g).
+Fixpoint respond_gf_all (k:nat) (r:rnode) (g:gmsg) (i:Z) : rnode * list event :=
   match k with
   | O => (r, [])
-  | S k' => let '(r1, ev1) := respond_gf r g fc pgn i in
-            let '(r2, ev2) := respond_gf_all k' r1 g fc pgn (i + 1) in (r2, ev1 ++ ev2)
+  | S k' => let '(r1, ev1) := respond_gf r g i in
+            let '(r2, ev2) := respond_gf_all k' r1 g (i + 1) in (r2, ev1 ++ ev2)
   end.
 
 (* the payload the getters see: Data[0..DataLen) *)
 Definition gf_payload (s:slot) : list Z := firstn (Z.to_nat (s_len s)) (s_data s).
+Definition gmsg_of (s:slot) : gmsg := {| g_src := s_src s; g_dst := s_dst s; g_tp := s_tp s; g_d := gf_payload s |}.
 
 (* ---------- HandleGroupFunction ---------- *)
 Definition gf_lib (r:rnode) (s:slot) : rnode * list event :=
   let i := find_source_device r (s_dst s) in
   if negb (s_dst s =? 255) && (i =? -1) then (r, []) else
-  let d := gf_payload s in
-  let fc := fst (get_byte d 0) in
-  if fc >? 6 then (r, []) else
-  let pgn := fst (get_u24 d 1) in
-  let g := {| g_src := s_src s; g_dst := s_dst s; g_tp := s_tp s; g_d := d |} in
-  if s_dst s =? 255 then respond_gf_all (length (n_devs (rn r))) r g fc pgn 0
-  else respond_gf r g fc pgn i.
+  if s_dst s =? 255 then respond_gf_all (length (n_devs (rn r))) r (gmsg_of s) 0
+  else respond_gf r (gmsg_of s) i.
